@@ -66,7 +66,10 @@ CvTags ==
       loose   == valid /\ InWindow(last, ur, TolU)         \* possibly inside the window
       n       == e.n
       okKeep  == loose /\ n = last
-      okFree  == ~strict /\ n >= 0 /\ n <= Top /\ Accept(allowed, uc, n)
+      \* an input clearly outside the range is clamped to exactly 0 V / 10 V: no tie tolerance there
+      \* (exact ties between two allowed notes are still accepted either way)
+      tol     == IF ~e.nan /\ (ur > VMax + TolU \/ ur < -TolU) THEN 0 ELSE TolU
+      okFree  == ~strict /\ n >= 0 /\ n <= Top /\ AcceptT(allowed, uc, n, tol)
   IN   (IF n < 0 \/ n > Top \/ (n % PC) \notin allowed THEN {<<"C07", "forbidden-note">>} ELSE {})
   \cup (IF ~hist /\ ~okFree THEN {<<"C08", "nearest">>} ELSE {})
   \cup (IF hist /\ strict /\ n # last THEN {<<"C09", "not-stable">>} ELSE {})
